@@ -351,7 +351,8 @@ impl Suite for Prog {
         let mut start: Option<u32> = None;
         let mut prehost: Option<u8> = None;
         let direct = rest.iter().any(|l| l == "direct 1");
-        let nested_tracing = rest.iter().any(|l| l == "nestedtracing 1");
+        let nested_tracing = rest.iter().any(|l| l == "nestedtracing 1")
+            || prog.ops.iter().any(|o| matches!(o, POp::New { vals, .. } | POp::Rec { vals, .. } | POp::Evt { vals, .. } if vals.iter().any(|v| v.1.starts_with("dbgev:"))));
         for l in &rest {
             let mut t = Toks::new(l);
             match t.next() {
